@@ -36,6 +36,7 @@ class ExactAlgorithm(ExactAlgorithmBase):
         """
         super().__init__(optimize)
         try:
+            import cplex  # noqa: F401, raises ImportError if Cplex is not installed
             self._alg = ExactAlgorithmCplex(optimize=optimize)
         except ModuleNotFoundError:
             self._alg = ExactAlgorithmPulp()
